@@ -26,6 +26,7 @@ import (
 	"hash/fnv"
 	"os"
 	"path/filepath"
+	"runtime"
 	"sort"
 	"strconv"
 	"strings"
@@ -77,6 +78,9 @@ type Sink struct {
 	exhaustive map[string]bool
 	known      map[string]bool
 	caseFile   *os.File
+	armedAt    int64 // unix nanos of the last Begin; 0 = no case running (watchdog disarmed)
+	armedSub   string
+	armedDesc  string
 	start      time.Time
 	stop       chan struct{}
 }
@@ -226,6 +230,9 @@ func (s *Sink) Known(key string) bool { return s.known[key] }
 // Begin records the case about to be executed in the side file, so that a
 // process death can be attributed to it.
 func (s *Sink) Begin(sub, desc string) {
+	s.mu.Lock()
+	s.armedAt, s.armedSub, s.armedDesc = time.Now().UnixNano(), sub, desc
+	s.mu.Unlock()
 	if s.caseFile == nil {
 		return
 	}
@@ -247,6 +254,7 @@ func trunc(x string, n int) string {
 func (s *Sink) Case(sub, canon string, nontrivial bool, classes ...string) {
 	s.mu.Lock()
 	defer s.mu.Unlock()
+	s.armedAt = 0
 	s.evals++
 	s.subEvals[sub]++
 	for _, c := range classes {
@@ -431,6 +439,7 @@ func Main(m *testing.M, prop string) {
 			select {
 			case <-t.C:
 				S.Flush(false)
+				S.watchdog()
 			case <-S.stop:
 				return
 			}
@@ -504,4 +513,31 @@ func FindingResult(key string, reproduced bool, detail string) {
 	} else {
 		fmt.Printf("FINDING-ABSENT key=%s %s\n", key, trunc(detail, 500))
 	}
+}
+
+// Idle disarms the hang watchdog (no case is running).
+func (s *Sink) Idle() {
+	s.mu.Lock()
+	s.armedAt = 0
+	s.mu.Unlock()
+}
+
+// watchdog: a case announced with Begin that has not been counted with Case within
+// VERIF_CASE_TIMEOUT seconds (default 120; cases normally take micro- to milliseconds)
+// is reported as a hang and the process exits, so that one hanging case does not
+// consume the whole budget.
+func (s *Sink) watchdog() {
+	limit := time.Duration(envInt("VERIF_CASE_TIMEOUT", 120)) * time.Second
+	s.mu.Lock()
+	at, sub, desc := s.armedAt, s.armedSub, s.armedDesc
+	s.mu.Unlock()
+	if at == 0 || time.Since(time.Unix(0, at)) < limit {
+		return
+	}
+	buf := make([]byte, 1<<16)
+	n := runtime.Stack(buf, true)
+	s.Violation(sub, "", desc, fmt.Sprintf("case did not finish within %v (hang); goroutines:\n%s", limit, trunc(string(buf[:n]), 6000)), nil)
+	s.Flush(true)
+	fmt.Printf("HANG sub=%s case=%s\n", sub, trunc(desc, 500))
+	os.Exit(3)
 }
